@@ -394,6 +394,10 @@ pub struct Inst {
     pub vote_times: HashMap<[u8; 32], std::time::Instant>,
     pub vote_ttl: Option<Duration>,
     pub vote_min: usize,
+    /// the routing-table entries when the running lookup was started (kept only when they all fit
+    /// into the lookup's candidate list), and the nodes the lookup has sent its request to so far
+    pub query_start: Vec<[u8; 32]>,
+    pub query_asked: std::collections::HashSet<[u8; 32]>,
     /// `auto_nat_listen_duration` as the built configuration has it
     pub auto_nat: Option<Duration>,
     /// the connectivity timer of a family ran out (its socket was taken out of the record): votes of
@@ -497,6 +501,8 @@ impl Inst {
             vote_times: HashMap::new(),
             vote_ttl: if seed % 1000 == 998 { Some(Duration::from_millis(400)) } else { None },
             vote_min: vote_min.max(2),
+            query_start: Vec::new(),
+            query_asked: Default::default(),
             auto_nat,
             revoked4: false,
             revoked6: false,
@@ -621,6 +627,9 @@ impl Inst {
                         let is_findnode = matches!(req.body, RequestBody::FindNode { .. });
                         let first_api = op_is_api && !out.iter().any(|o| matches!(o, Obs::Req(_)));
                         self.req_ids.insert(req.id.0.clone(), k);
+                        if op_is_query && is_findnode {
+                            self.query_asked.insert(contact.node_id().raw());
+                        }
                         self.reqs.push(EmittedReq {
                             id: req.id.clone(),
                             contact,
@@ -1135,6 +1144,21 @@ impl ServiceRunner {
                         s.push_str(&format!("\n!MON C10 lookup-returned-more-than-asked-for got={} k={}", n, k));
                     }
                 }
+                // C10: a lookup that returns fewer nodes than it was asked for has sent its request to
+                // every candidate it knew of - the routing-table entries it started from among them
+                // (whatever happened to their entries while it ran)
+                if let Some(n) = r.strip_prefix("ok:").and_then(|n| n.split(':').next().unwrap_or("").parse::<usize>().ok()) {
+                    let k = inst.query_k.unwrap_or(16);
+                    if n < k {
+                        if let Some(miss) = inst.query_start.iter().find(|id| !inst.query_asked.contains(*id)) {
+                            s.push_str(&format!(
+                                "\n!MON C10 lookup-short-although-a-start-candidate-was-never-asked id={} got={} k={}",
+                                id8(miss), n, k
+                            ));
+                        }
+                    }
+                }
+                inst.query_start.clear();
                 inst.query_k = None;
                 s.push_str(&format!("\n!INFO query-result {}", r));
             }
@@ -2046,6 +2070,15 @@ impl Runner for ServiceRunner {
                         Err(_) => "err".to_string(),
                     }
                 });
+                {
+                    let inst = self.insts.get_mut(&x).unwrap();
+                    let start: Vec<[u8; 32]> = inst.discv5.table_entries_id().into_iter().map(|id| id.raw()).collect();
+                    inst.query_start = if start.len() <= k.unwrap_or(16) { start } else { Vec::new() };
+                    inst.query_asked.clear();
+                    if !inst.query_start.is_empty() {
+                        stats.bump("s.c10.lookups-with-start-set-tracked");
+                    }
+                }
                 self.insts.get_mut(&x).unwrap().query = Some(h);
                 self.insts.get_mut(&x).unwrap().query_k = k;
                 let so = self.observe(x, true, false);
@@ -2530,6 +2563,16 @@ fn gen_c11(rng: &mut Rng, ops: &mut Vec<String>, stats: &mut Stats) {
                 stats.bump(&format!("gen.c11.class.{}", if d <= 2 { d.to_string() } else if d <= 245 { "3-245".into() } else { "246-256".into() }));
                 let tid = flip_target(&bid, d, rng);
                 ops.push(format!("squery A {}{}", hex::encode(tid), match rng.below(6) { 0 => " 0", 1 => " 1", 2 => " 2", 3 => " 16", _ => "" }));
+                if !others.is_empty() && rng.chance(1, 3) {
+                    // the application takes a node the lookup started from out of the routing table
+                    // while the lookup runs (it may not have been asked yet)
+                    stats.bump("gen.c11.start-candidate-removed-mid-lookup");
+                    for o in others.iter() {
+                        if rng.chance(2, 3) {
+                            ops.push(format!("srm A k{}", o));
+                        }
+                    }
+                }
                 // the honest answer first or a malicious one in its place
                 match rng.below(8) {
                     0 => {
